@@ -1,4 +1,5 @@
 import Driver.Drv.Ban
+import Driver.Drv.BlockMgr
 import Driver.Drv.Dispatcher
 import Driver.Drv.Lru
 import Driver.Drv.PushTx
@@ -8,6 +9,7 @@ namespace Driver
 
 def drivers : List (String × CaseFn) := [
   ("ban", Driver.Drv.Ban.runCase),
+  ("blockmgr", Driver.Drv.BlockMgr.runCase),
   ("dispatcher", Driver.Drv.Dispatcher.runCase),
   ("lru", Driver.Drv.Lru.runCase),
   ("pushtx", Driver.Drv.PushTx.runCase),
